@@ -239,6 +239,10 @@ pub struct TxSpec {
     /// Some(n): the n-th real transaction of the repository's own vectors instead of a generated one
     #[serde(default)]
     pub corpus: Option<u32>,
+    /// exactly ONE of the six witness fields is present in the whole transaction, at one input or output
+    /// (each field alone must switch the witness flag on and survive the round trip)
+    #[serde(default)]
+    pub sparse_witness: bool,
 }
 
 impl TxSpec {
@@ -260,6 +264,7 @@ impl TxSpec {
             out_witness: p.chance(1, 2),
             max_blob: if many_in || many_out { 40 } else { *p.pick(&[40usize, 300, 300, 70_000]) },
             corpus: None,
+            sparse_witness: p.chance(1, 6),
         }
     }
     /// like `draw`, but one run in `one_in` takes a real transaction from the repository's vectors
@@ -287,6 +292,7 @@ impl TxSpec {
             }
         };
         push(TxSpec { corpus: None, ..self.clone() });
+        push(TxSpec { sparse_witness: false, ..self.clone() });
         push(TxSpec { n_in: self.n_in / 2, ..self.clone() });
         push(TxSpec { n_out: self.n_out / 2, ..self.clone() });
         push(TxSpec { n_in: self.n_in.saturating_sub(1), ..self.clone() });
@@ -389,15 +395,43 @@ pub fn tx(s: &TxSpec) -> Transaction {
         _ => p.u32(),
     };
     let lt = lock_time(&mut p);
-    let input = (0..s.n_in).map(|k| txin(&mut p, s, k == 0, true)).collect();
-    let output = (0..s.n_out).map(|_| txout(&mut p, s, true)).collect();
+    let mut input: Vec<TxIn> = (0..s.n_in).map(|k| txin(&mut p, s, k == 0, true)).collect();
+    let mut output: Vec<TxOut> = (0..s.n_out).map(|_| txout(&mut p, s, true)).collect();
+    if s.sparse_witness && input.len() + output.len() > 0 {
+        for i in &mut input {
+            i.witness = TxInWitness::default();
+        }
+        for o in &mut output {
+            o.witness = TxOutWitness::default();
+        }
+        let pl = pool();
+        let field = p.below(6);
+        if (field < 4 && !input.is_empty()) || output.is_empty() {
+            let k = p.usize_below(input.len());
+            let w = &mut input[k].witness;
+            match field % 4 {
+                0 => w.amount_rangeproof = Some(Box::new(p.pick(&pl.rangeproofs).clone())),
+                1 => w.inflation_keys_rangeproof = Some(Box::new(p.pick(&pl.rangeproofs).clone())),
+                2 => w.script_witness = vec![p.bytes(3)],
+                _ => w.pegin_witness = vec![p.bytes(3)],
+            }
+        } else {
+            let k = p.usize_below(output.len());
+            let w = &mut output[k].witness;
+            if field == 4 {
+                w.surjection_proof = Some(Box::new(p.pick(&pl.surjproofs).clone()));
+            } else {
+                w.rangeproof = Some(Box::new(p.pick(&pl.rangeproofs).clone()));
+            }
+        }
+    }
     Transaction { version, lock_time: lt, input, output }
 }
 
 /// spent outputs matching a transaction's inputs (for sighash worlds): arbitrary but fixed
 pub fn prevouts(seed: u64, n: usize, confidential: bool) -> Vec<TxOut> {
     let mut p = Prng::from_u64(seed ^ 0x50_52_45_56);
-    let s = TxSpec { seed, n_in: 0, n_out: n, coinbase: false, pegin: false, issuance: false, confidential, in_witness: false, out_witness: true, max_blob: 60, corpus: None };
+    let s = TxSpec { seed, n_in: 0, n_out: n, coinbase: false, pegin: false, issuance: false, confidential, in_witness: false, out_witness: true, max_blob: 60, corpus: None, sparse_witness: false };
     (0..n).map(|_| txout(&mut p, &s, true)).collect()
 }
 
